@@ -281,8 +281,43 @@ def suffixed_payload_cases(rng, n):
         del back, payload
 
 
+def failed_replace_release_cases(rng, n):
+    """"nodes no longer referenced anywhere are not returned and are not kept alive by the library": a node whose replace()
+    was rejected (unknown field, non-init field) and which the program then drops is gone at once -- no cyclic garbage
+    collection is needed (the automatic collector is switched off for the scenario)"""
+    import gc
+    import weakref
+    from pyoak.node import ASTNode
+    import zoo
+    for k in range(n):
+        gc.collect()
+        was = gc.isenabled()
+        gc.disable()
+        try:
+            x = zoo.Un(zoo.Leaf(v=rng.randrange(10 ** 6))) if k % 2 else zoo.Leaf(v=rng.randrange(10 ** 6))
+            xid, wr = x.id, weakref.ref(x)
+            bad = [{"nonexistent": 1}, {"cnt": 3}, {"id": "zz"}][k % 3]
+            try:
+                x.replace(**bad)
+                rejected = False
+            except Exception:  # noqa
+                rejected = True
+            del x
+            fail = None
+            if rejected and wr() is not None:
+                fail = "a node dropped after a rejected replace() is still alive (kept by the library until a cyclic collection)"
+            elif rejected and ASTNode.get_any(xid) is not None:
+                fail = "a node dropped after a rejected replace() is still returned by get_any"
+        finally:
+            if was:
+                gc.enable()
+        yield Case("directed:failed-replace-release", None, None, True, f"replace(**{bad}) rejected, node dropped, no gc pass",
+                   oracle_fail=fail, sig="registry|directed|failed-replace-release")
+
+
 def cases(rng: random.Random, tier: str):
     yield from suffixed_payload_cases(rng, 6 if tier == "quick" else 100)
+    yield from failed_replace_release_cases(rng, 6 if tier == "quick" else 60)
     yield from f19_corpus()
     yield from directed_registry_cases(rng, 10 if tier == "quick" else 200)
     yield from takeover_cases(rng, 6 if tier == "quick" else 100)
